@@ -34,6 +34,9 @@ func verifLongString(tag string, n int) string {
 // stmt 1: UPDATE whose new value is invalid (bad 0,1,2) for rows selected by a symbolic WHERE
 // stmt 2: INSERT / UPDATE / DELETE on an unknown table
 // stmt 3: CREATE TABLE of an existing table
+// stmt 4: DELETE / UPDATE whose WHERE cannot be evaluated on a later row (NULL under >=)
+// stmt 5: UPDATE whose new value fits some rows and not others (row sizes differ)
+// stmt 6: CREATE TABLE whose k-th column is refused by the catalog
 func verifH_C14_errors() {
 	sc := verifParam("prefix", 1)
 	stmtKind := verifParam("stmt", 0)
@@ -114,13 +117,68 @@ func verifH_C14_errors() {
 			_, err = EvaluateDelete(sql.DeleteStatementSearched{TableName: "nosuch"}, rs)
 		}
 		verifTag("stmt", "unknown-table")
-	default:
+	case 3:
 		err = EvaluateCreateTable(verifCreateStmt(t.name, verifStdCols[:2]), rs)
 		verifTag("stmt", "duplicate-create")
+	case 4, 5:
+		// rows of different shapes: one row inserted through a partial column list
+		// (a, s, f NULL) at position `nullpos` among normal rows
+		nullpos := verifChoice("nullpos", 3)
+		for i := 0; i < 3; i++ {
+			var st verifStmt
+			if i == nullpos {
+				nb := verifI64("nullrow-b")
+				ins := verifInsertStmt(t.name, []string{"b"}, [][]interface{}{{nb}})
+				st = verifStmt{kind: "insert", table: t.name,
+					run: func(rm RelationManager) error { _, err := EvaluateInsert(ins, rm); return err },
+					apply: func(db *verifDB) {
+						mt := db.table(t.name)
+						mt.rows = append(mt.rows, []interface{}{nil, nb, nil, nil})
+					}}
+			} else {
+				st = verifGenInsert(t, 1, fmt.Sprintf("n%d", i), 1, false)
+			}
+			verifMustRun(rs, db, st)
+		}
+		verifTag("nullpos", fmt.Sprint(nullpos+1))
+		if stmtKind == 4 {
+			// a WHERE clause that cannot be evaluated on the NULL row (ordering comparison)
+			x := int64(verifI32("x"))
+			w := verifWhere("a", sql.GTE, x)
+			if verifChoice("which", 2) == 0 {
+				_, err = EvaluateDelete(sql.DeleteStatementSearched{TableName: t.name, WhereClause: w}, rs)
+				verifTag("stmt", "delete-where-error")
+			} else {
+				err = EvaluateUpdate(sql.UpdateStatementSearched{TableName: t.name, Set: []sql.SetClause{{ObjectColumn: "b", UpdateSource: verifI64("nb")}}, Where: w}, rs)
+				verifTag("stmt", "update-where-error")
+			}
+		} else {
+			// a new value that fits the short (NULL-bearing) row but not the full rows
+			err = EvaluateUpdate(sql.UpdateStatementSearched{TableName: t.name,
+				Set: []sql.SetClause{{ObjectColumn: "s", UpdateSource: verifLongString("long", 381)}}}, rs)
+			verifTag("stmt", "update-size-depends-on-row")
+		}
+	default:
+		// CREATE TABLE whose k-th column definition is refused by the catalog (length beyond 32 bits)
+		k := verifChoice("badcol", 2)
+		ct := verifCreateStmt("newt", verifStdCols[:2])
+		big := verifI64("len")
+		verifAssume(big > math.MaxInt32)
+		ct.Elements[k].ColumnDefinition.DataType = sql.CharacterStringType{Len: big, Type: sql.T_VARCHAR}
+		err = EvaluateCreateTable(ct, rs)
+		verifTag("stmt", "create-bad-column")
+		verifTag("badcol", fmt.Sprint(k+1))
 	}
 	verifAssert(err != nil, "invalid-statement-refused")
 	if err == nil {
 		return
+	}
+	if stmtKind == 6 {
+		_, _, ferr := rs.Fetch("newt")
+		verifAssert(ferr != nil, "refused-table-does-not-exist")
+		// the name is still free
+		verifAssert(EvaluateCreateTable(verifCreateStmt("newt", verifStdCols[:1]), rs) == nil, "refused-table-name-still-free")
+		db.tables = append(db.tables, &verifTable{name: "newt", cols: verifStdCols[:1]})
 	}
 	// nothing changed ...
 	verifCheckDB(rs, db, "after/")
